@@ -108,7 +108,7 @@ def design(ctx):
     for kind in ("tdvp", "taylor", "rk"):
         cfg = tlc.make_cfg(constants=dict(Target=6, MaxGuess=8, Kind=f'"{kind}"', PinnedRK=False), spec="Spec",
                            invariants=["NoOvershoot", "TimeAccounting"], properties=["Terminates"])
-        r = tlc.run("Adaptive", cfg, timeout=600)
+        r = tlc.run("Adaptive", cfg, vacuity=True, timeout=600)
         ctx.add_tlc(r, f"Adaptive controller {kind}")
         if r["violated"]:
             ctx.violation(f"C09:spec:Adaptive:{r['violated']}", f"Adaptive({kind}) violates {r['violated']}", {"tlc": r.get("error_text", "")[:2000]})
@@ -118,7 +118,7 @@ def design(ctx):
     if r["violated"] != "TimeAccounting":
         raise MachineryError("regression config: pinned RK controller no longer violates TimeAccounting")
     cfg = tlc.make_cfg(constants=dict(N=4, Regauge=True), spec="Spec", invariants=["EnvFresh", "OnCentre", "FullCoverage"])
-    r = tlc.run("SweepPS", cfg, timeout=600)
+    r = tlc.run("SweepPS", cfg, vacuity=True, timeout=600)
     ctx.add_tlc(r, "SweepPS N=4 (re-gauging at entry)")
     if r["violated"]:
         ctx.violation(f"C09:spec:SweepPS:{r['violated']}", f"SweepPS violates {r['violated']}", {"tlc": r.get("error_text", "")[:2000]})
@@ -127,6 +127,64 @@ def design(ctx):
     ctx.add_tlc(r, "SweepPS pinned (no re-gauging at entry, must fail)")
     if r["violated"] != "FullCoverage":
         raise MachineryError("regression config: the pinned sweep without re-gauging no longer violates FullCoverage")
+
+
+def _judge_adaptive(ctx, pid, atraces, cases):
+    """code -> spec: the recorded inner steps of the adaptive controllers, judged by TLC (AdaptiveTrace) in one batch,
+    together with corrupted copies of one of them that MUST be rejected (binding demonstration)."""
+    import copy
+    import os
+    import tempfile
+    if not atraces:
+        raise MachineryError("no adaptive controller trace was recorded")
+    batch = [dict(t) for t in atraces]
+    donor = next((t for t in atraces if any(e["ev"] == "reject" for e in t["events"]) and any(e["ev"] == "accept" for e in t["events"])), None) \
+        or next((t for t in atraces if any(e["ev"] == "reject" for e in t["events"])), None)
+    corrupt = []
+    if donor is not None:
+        for name in ("reject-not-shrunk", "last-event-removed", "trial-advanced-on-reject", "guess-not-carried"):
+            t = copy.deepcopy(donor)
+            ev = t["events"]
+            k = next(i for i, e in enumerate(ev) if e["ev"] == "reject")
+            if name == "reject-not-shrunk":
+                ev[k]["guess"] = ev[k - 1]["dt"]
+            elif name == "last-event-removed":
+                ev.pop()
+            elif name == "trial-advanced-on-reject":
+                ev[k]["ev"] = "accept"               # the pinned general-RK defect: a rejected trial that advances the state
+                ev[k]["guess"] = ev[k - 1]["guess"]
+            else:
+                ev[k + 1]["guess"] = ev[k + 1]["guess"] * 3 + 1000
+            t["id"] = len(batch)
+            t["corrupt"] = name
+            batch.append(t)
+            corrupt.append(t["id"])
+    with tempfile.NamedTemporaryFile("w", suffix=".json", delete=False) as fh:
+        # very long traces (a controller that keeps rejecting) are judged on their first 2000 events
+        json.dump([dict({k: t[k] for k in ("id", "kind", "target", "tol")}, events=t["events"][:2000], complete=len(t["events"]) <= 2000) for t in batch], fh)
+        path = fh.name
+    try:
+        rt = tlc.run("AdaptiveTrace", tlc.make_cfg(init="Init", next_="Next", invariants=["Verdict"]), mode="trace", env={"TRACE_FILE": path}, timeout=3000)
+    finally:
+        os.unlink(path)
+    ctx.add_tlc(rt, "AdaptiveTrace batch (recorded controller steps + corrupted copies that must be rejected)")
+    if len(rt["verdicts"]) != len(batch):
+        raise MachineryError("AdaptiveTrace verdict count mismatch")
+    verdicts = {v["id"]: v["verdict"] for v in rt["verdicts"]}
+    for cid in corrupt:
+        if verdicts[cid] == "ok":
+            raise MachineryError(f"binding demonstration failed: corrupted controller trace '{batch[cid]['corrupt']}' was accepted")
+    stats = {"traces": len(atraces), "with_rejections": sum(1 for t in atraces if any(e["ev"] == "reject" for e in t["events"])),
+             "with_substeps": sum(1 for t in atraces if any(e["ev"] == "accept" for e in t["events"])),
+             "corrupted_copies_rejected": {batch[c]["corrupt"]: verdicts[c] for c in corrupt}}
+    ctx.notes["adaptive_traces"] = stats
+    for t in atraces:
+        ctx.traces(1)
+        if verdicts[t["id"]] != "ok":
+            ctx.violation(f"{pid}:trace:adaptive:{t['kind']}:{verdicts[t['id']]}", f"TLC: recorded inner steps of the adaptive controller violate clause {verdicts[t['id']]} of AdaptiveTrace",
+                          {"trace": t, "case": cases[t["idx"]]})
+    if stats["with_rejections"]:
+        ctx.sample({"adaptive_controller_trace_judged_by_TLC": donor})
 
 
 def run(ctx, imag=False):
@@ -147,12 +205,14 @@ def run(ctx, imag=False):
         for c in cases:
             k = json.dumps([c["cfg"][x] for x in ("scheme", "adaptive", "solver", "td", "form", "gauge", "cmf", "rk", "force_ovlp")] + [len(c["calls"])])
             cls.setdefault(k, []).append(c)
-        cases = [rnd.choice(v) for v in cls.values()]
+        # non-default gauges get 4 members per class (they land on different systems / seeds), the rest 2
+        cases = [c for k, v in cls.items() for c in rnd.sample(v, min(len(v), 4 if json.loads(k)[5] != "fresh" else 2))]
     jobs = list(enumerate(cases))
     n = 64
     res = pmap(_chunk, [(jobs[i::n], ctx.seed) for i in range(n) if jobs[i::n]], chunksize=1)
     stats = {}
     slow = []
+    atraces = []
     for st_, o in res:
         if st_ != "ok":
             raise MachineryError("evolve worker failed: " + o)
@@ -166,6 +226,9 @@ def run(ctx, imag=False):
                     # reported by their own checks; kept in the evidence notes here
                     stats.setdefault("foreign", []).append(key)
             slow.append((r.get("wall", 0), idx))
+            for t in r.get("adaptive_traces", []):
+                t["id"] = len(atraces)
+                atraces.append(t)
             for m in r["meas"]:
                 if m.get("timeout"):
                     stats.setdefault("timeouts", []).append(m["case"])
@@ -202,9 +265,9 @@ def run(ctx, imag=False):
                 ctx.case(fingerprint=c, nontrivial=True)
             for key, what, detail in o["viol"]:
                 ctx.violation(key, what, detail)
+    _judge_adaptive(ctx, pid, atraces, cases)
     ctx.sample(cases[len(cases) // 2])
     ctx.sample(cases[0])
-    ctx.traces(0)
     ctx.cov["rule"] = ("(configuration, call history) pairs enumerated by TLC from EvolveSpace (quick: one per configuration class; thorough: all, wide tableau/gauge sets, "
                        "<= 3 calls), each on one of 4 small systems (electron-phonon, spin, electron chains) with a generic full-bond initial state; non-trivial = more than "
                        "one call, adaptive stepping or a non-default input gauge; distinct = distinct pair")
